@@ -104,6 +104,7 @@ func (e *Env) Clone() *Env {
 type Views struct {
 	Meta, VMeta, Blob, Wal, ReadLog *memstore.Store
 	Stores                          context2.Stores
+	Proc                            *memstore.Proc // shared crash plan of all views
 }
 
 // All returns the views as a slice
@@ -119,6 +120,10 @@ func (e *Env) Actor(name string) *Views {
 		Blob:    e.Blob.View(name),
 		Wal:     e.Wal.View(name),
 		ReadLog: e.ReadLog.View(name),
+	}
+	v.Proc = memstore.NewProc()
+	for _, s := range v.All() {
+		s.Attach(v.Proc)
 	}
 	w := func(s *memstore.Store) storage.Store {
 		if e.CRC {
